@@ -1,6 +1,7 @@
 """C21 - tabulation counts are exact.
 
-Generator: 1-3 factors (levels are tokens without '|' or blanks), 1-3 arbitrary well-formed experiments of T trials,
+Generator: 1-3 factors (levels are tokens without '|' or blanks), 1-3 arbitrary well-formed experiments of T trials (a
+factor may have '' in its first one or two trials, as complex-window derived factors do in synthesized experiments),
 selection through `factors=` (a subset, in generated order) or through `block=` (single-crossing CrossBlock), `trials`
 None or a non-empty list of distinct in-range indices.
 Oracle: the captured stdout is parsed (one table per experiment, rows split on ' | ', each cell = '<factor name> <value>');
@@ -38,8 +39,10 @@ def cases(draw):
     T = draw(st.integers(1, 10))
     nexp = draw(st.integers(1, 3))
     exps = []
+    # like a Transition / Window factor in a synthesized experiment: '' in the trials where the factor has no level
+    blanks = {f["name"]: draw(st.sampled_from([0, 0, 0, 1, 2])) for f in factors}
     for _ in range(nexp):
-        exps.append({f["name"]: [draw(st.sampled_from(f["levels"])) for _ in range(T)] for f in factors})
+        exps.append({f["name"]: ['' if t < blanks[f["name"]] else draw(st.sampled_from(f["levels"])) for t in range(T)] for f in factors})
     via_block = draw(st.booleans())
     k = draw(st.integers(1, nf))
     sel = draw(st.permutations(list(range(nf))))[:k]
@@ -66,7 +69,7 @@ def _valid(case):
             if set(e) != set(names) or any(len(v) != T for v in e.values()):
                 return False
             for f in case["factors"]:
-                if any(v not in f["levels"] for v in e[f["name"]]):
+                if any(v not in f["levels"] and v != '' for v in e[f["name"]]):
                     return False
         sel = case["selected"]
         if not sel or len(set(sel)) != len(sel) or any(not (0 <= i < len(names)) for i in sel):
@@ -180,6 +183,7 @@ def _check(case, fail):
 
 def _labels(case):
     labs = ["via-block" if case["via_block"] else "via-factors", "experiments=%d" % len(case["experiments"]),
+            "has-empty-cells" if any(v == '' for e in case["experiments"] for col in e.values() for v in col) else "no-empty-cells",
             "trials=None" if case["trials"] is None else ("trials=all" if len(case["trials"]) == case["T"] else "trials=subset"),
             "selected=%d" % len(case["selected"])]
     return labs
